@@ -99,7 +99,7 @@ theorem ffi_failure_paths_missing (count : Nat) (code : List Desc) (stack : FVal
   exec_missing count code stack libOk symOk h
 
 /-- exact characterisation of the nil-argument path on emitted descriptors: `ffi_fail` is raised
-before the call iff the flag `prep_vals`, *as the C code assigns it* (`prepFinal`), ends up set -/
+before the call iff the flag `prep_vals`, as the C code computes it (`prepFinal`, `|=`), ends up set -/
 theorem ffi_failure_paths_nil_exact (ps : FTys) (r : RetTy) (stack : FVals) (tail : List Desc)
     (hwf : WfTys ps = true) (hwr : WfRet r = true) (hty : HasTys stack ps = true) (hfit : FitsL ps) :
     (prepFinal false stack = true →
@@ -112,17 +112,29 @@ theorem ffi_failure_paths_nil_exact (ps : FTys) (r : RetTy) (stack : FVals) (tai
   · intro h; rw [hx]; simp [h]
   · intro h; exact ⟨args, by rw [hx]; simp [h]⟩
 
-/-- **PARTIAL** (the full statement is false on the pinned tree, see the counterexample):
-an operand holding a nil string or nil record — at top level or nested — raises `ffi_fail`
-before the call PROVIDED no non-nil record operand follows it -/
-theorem ffi_failure_paths_partial (ps : FTys) (r : RetTy) (pre post : FVals) (v : FVal)
+/-- **Nil operands, full strength** (holds since the repair 7f404f9, `prep_vals |= …`): on the
+descriptor emitted for `(ps) -> r`, with operands of the declared types, if ANY operand — at top
+level or nested inside a record operand (`NilFreeL stack = false`) — is a nil string or a nil
+record, `ffi_fail` is raised at the values stage and `ffi_call` is not reached; otherwise the call
+is made, with one intact argument per parameter in declared order -/
+theorem ffi_failure_paths (ps : FTys) (r : RetTy) (stack : FVals) (tail : List Desc)
+    (hwf : WfTys ps = true) (hwr : WfRet r = true) (hty : HasTys stack ps = true) (hfit : FitsL ps) :
+    (NilFreeL stack = false →
+      ffiExec ps.length (emitSig ps r ++ tail) stack true true = .ffiFail .values) ∧
+    (NilFreeL stack = true →
+      ∃ args, ArgsOk ps stack args (emitRet r ++ .other :: tail) ∧
+        ffiExec ps.length (emitSig ps r ++ tail) stack true true
+          = .call args r (emitRet r ++ .other :: tail)) :=
+  exec_full ps r stack tail hwf hwr hty hfit
+
+/-- the same, spelled by position: an operand `v` holding a nil anywhere in the operand list,
+whatever precedes and whatever follows it (non-nil records included), stops the call -/
+theorem ffi_failure_paths_any_position (ps : FTys) (r : RetTy) (pre post : FVals) (v : FVal)
     (tail : List Desc) (hwf : WfTys ps = true) (hwr : WfRet r = true)
     (hty : HasTys (pre.append (.cons v post)) ps = true) (hfit : FitsL ps)
-    (hnil : NilFree v = false)
-    (hpost : ∀ w, w ∈ post.toList → ∀ inner, w ≠ .record inner) :
+    (hnil : NilFree v = false) :
     ffiExec ps.length (emitSig ps r ++ tail) (pre.append (.cons v post)) true true = .ffiFail .values :=
-  (ffi_failure_paths_nil_exact ps r _ tail hwf hwr hty hfit).1
-    (prepFinal_nil_then_no_record pre v post false hnil hpost)
+  (exec_full ps r _ tail hwf hwr hty hfit).1 (nilFreeL_append_cons pre v post hnil)
 
 /-- the outcome "reached `ffi_call` with `param_values[0]` still NULL" -/
 def callsWithNull : Outcome → Bool
@@ -132,14 +144,19 @@ def callsWithNull : Outcome → Bool
 def cexPs : FTys := .cons (.prim .string) (.cons (.record (.cons (.prim .int) (.cons (.prim .int) .nil))) .nil)
 def cexStack : FVals := .cons (.string none) (.cons (.record (.cons (.int 4) (.cons (.int 5) .nil))) .nil)
 
-/-- **COUNTEREXAMPLE** to "a nil string argument ⇒ `ffi_fail` before the call":
-`extern f(s : string, r : {int,int}) -> int` called with a nil string and a non-nil record: the
-record arm assigns `prep_vals = 0`, the call is made with a NULL argument pointer
-(replayed on the real implementation by the check: SIGSEGV inside libffi) -/
-theorem ffi_failure_paths_counterexample :
+/-- **HISTORICAL counterexample** (pinned commit 032f4cb, before 7f404f9; model `ffiExecPinned`
+with `prep_vals = …`): `extern f(s : string, r : {int,int}) -> int` called with a nil string and a
+non-nil record reached `ffi_call` with a NULL argument pointer.  The check replays this input on
+the current tree and reports a VIOLATION if the behaviour returns. -/
+theorem ffi_failure_paths_pinned_counterexample :
     HasTys cexStack cexPs = true ∧ NilFreeL cexStack = false ∧
-    callsWithNull (ffiExec cexPs.length (emitSig cexPs (.ty (.prim .int))) cexStack true true) = true := by
-  decide +kernel
+    callsWithNull (ffiExecPinned cexPs.length (emitSig cexPs (.ty (.prim .int))) cexStack true true) = true ∧
+    ffiExec cexPs.length (emitSig cexPs (.ty (.prim .int))) cexStack true true = .ffiFail .values := by
+  refine ⟨by decide +kernel, by decide +kernel, by decide +kernel, ?_⟩
+  have h := (exec_full cexPs (.ty (.prim .int)) cexStack [] (by decide +kernel) (by decide +kernel)
+    (by decide +kernel)
+    (by simp only [cexPs, FitsL]; exact ⟨by decide +kernel, by decide +kernel, trivial⟩)).1 (by decide +kernel)
+  simpa using h
 
 /-! ### non-vacuity -/
 
@@ -155,15 +172,14 @@ example : WfTys cexPs = true ∧ WfRet (.ty (.prim .int)) = true ∧ FitsL cexPs
   refine ⟨by decide +kernel, by decide +kernel, ?_⟩
   simp only [cexPs, FitsL]
   refine ⟨by decide +kernel, by decide +kernel, trivial⟩
-/-- the hypotheses of `ffi_failure_paths_partial` are satisfiable: record first, nil string last -/
-example : ffiExec 2 (emitSig (.cons (.record (.cons (.prim .int) .nil)) (.cons (.prim .string) .nil)) .void)
-    (FVals.append (.cons (.record (.cons (.int 1) .nil)) .nil) (.cons (.string none) .nil)) true true
-    = .ffiFail .values := by
-  have h := ffi_failure_paths_partial (.cons (.record (.cons (.prim .int) .nil)) (.cons (.prim .string) .nil)) .void
-    (.cons (.record (.cons (.int 1) .nil)) .nil) .nil (.string none) []
+/-- `ffi_failure_paths_any_position` is not vacuous: nil string first, non-nil record after it -/
+example : ffiExec 2 (emitSig cexPs .void) (FVals.append .nil (.cons (.string none)
+      (.cons (.record (.cons (.int 4) (.cons (.int 5) .nil))) .nil))) true true = .ffiFail .values := by
+  have h := ffi_failure_paths_any_position cexPs .void .nil
+    (.cons (.record (.cons (.int 4) (.cons (.int 5) .nil))) .nil) (.string none) []
     (by decide +kernel) (by decide +kernel) (by decide +kernel)
-    (by simp only [FitsL]; exact ⟨by decide +kernel, by decide +kernel, trivial⟩)
-    (by decide +kernel) (by intro w hw; simp [FVals.toList] at hw)
-  simpa [FTys.length] using h
+    (by simp only [cexPs, FitsL]; exact ⟨by decide +kernel, by decide +kernel, trivial⟩)
+    (by decide +kernel)
+  simpa [FTys.length, cexPs] using h
 
 end Never.C17
